@@ -282,6 +282,15 @@ func run(ci any, r *mon.Rec) {
 		// write error
 		out := clientx.Run(c.Client, req, script(reply, 0, "write", rng, c.Client == clientx.Serial), opt)
 		x.verdict(out, "write", 0, "")
+		if c.Client == clientx.Serial {
+			// a serial client configured with a zero read timeout: whatever zero means to it, a silent line must still end the call
+			zo := opt
+			zo.ZeroSerialTimeout, zo.ReadTimeout = true, 40*time.Millisecond
+			for _, p := range []int{0, 2} {
+				out := clientx.Run(c.Client, req, script(reply, min(p, L-1), "stall", rng, true), zo)
+				x.verdict(out, "stall", min(p, L-1), "zero-read-timeout")
+			}
+		}
 		// nil request: error before any transport call
 		out = clientx.Run(c.Client, nil, xport.Script{Reply: reply, Steps: xport.Cuts(L, nil, 0), Tail: "deadline"}, opt)
 		r.Eval(1)
